@@ -82,6 +82,7 @@ func init() {
 			Explanation: "Both extension lifecycle automata (9 external state types x 7 calls, 6 internal x 4) are extracted from the state-object pattern and compared cell by cell with the documented ones; refused calls are proved effect-free (no state change, no barrier arrival). " +
 				"Registration rules are decided on the code shape: the limit constant is 10 and guards the internal insert with '>=' and the external launch loop with '>'; inserts are dominated by service-on, cross-kind and same-kind name-collision tests and precede no store on refusal; the accepted event sets are exactly {INVOKE, SHUTDOWN} (external) and {INVOKE} (internal); " +
 				"event validation precedes the state change and ranges over the slice later registered; all post-register routes (and /logs, /telemetry) sit behind the identifier validator whose pass-through is dominated by a non-empty header and a successful uuid parse; handlers transition first and answer 403 with the documented error type constants; registration data are wired from the init request. " +
+				"Added after the blind rounds: sentinel errors reach the register handler unwrapped (R-ERRID); every requested event is validated; registration maps emptied by a reset; no connection deadlines. " +
 				"NOT decided: wire-level sequences, header parsing by net/http.",
 			RuleText:    "one obligation per automaton cell (63+24), per base method, per wrapper, per guard, per route, per error-type constant, per wiring edge",
 			Assumptions: trusted,
